@@ -1,4 +1,4 @@
-"""PROTOTYPE C15: report is schema-valid and consistent with the run (one result per executed codemod, paths, diffs, lines, disjointness)."""
+"""C15: report is schema-valid and consistent with the run (one result per executed codemod, paths, diffs, lines, disjointness)."""
 import base64, collections, json, os, random, sys
 import jsonschema
 from vf import corpus
@@ -19,6 +19,10 @@ def plan(tier, seed):
         if rnd.random() < 0.5: files["requirements.txt"] = b64(b"requests\n")
         cms = sorted({r["codemod"] for r in picks})
         jobs.append({"id": f"mix{q}", "files": files, "argv": base + ["--codemod-include", ",".join(cms)] + (["--dry-run"] if rnd.random() < 0.3 else []), "monitors": {"snap": False, "pipe": False}, "want_before": True})
+    # a source file whose write fails (injected at the update_code hook): if the run still completes, its report must be consistent
+    for q, cms in enumerate((["pixee:python/use-set-literal"], ["pixee:python/use-set-literal", "pixee:python/remove-unnecessary-f-str"], ["pixee:python/use-generator", "pixee:python/use-set-literal"])):
+        files = {"a.py": b64(b"x = set([1])\nprint(f'a')\nt = any([i for i in range(3)])\n"), "b_locked.py": b64(b"y = set([2])\nprint(f'b')\nu = all([i for i in range(3)])\n"), "c.py": b64(b"z = set([3])\n")}
+        jobs.append({"id": f"write-fault{q}", "files": files, "argv": base + ["--codemod-include", ",".join(cms)], "monitors": {"snap": False, "pipe": False, "faults": [{"kind": "write_error", "file": "b_locked.py"}]}, "want_before": True})
     jobs.append({"id": "zero-codemods", "files": {"a.py": b64(b"x = set([1])\n")}, "argv": base + ["--codemod-include", "nope:python/x"], "monitors": {"snap": False}, "want_before": True})
     jobs.append({"id": "zero-files", "files": {}, "argv": base + ["--codemod-include", "pixee:python/use-set-literal"], "monitors": {"snap": False}, "want_before": True})
     jobs.append({"id": "only-nonpython", "files": {"a.txt": b64(b"x")}, "argv": base + ["--codemod-include", "pixee:python/use-set-literal"], "monitors": {"snap": False}, "want_before": True})
@@ -58,6 +62,8 @@ def judge(job, res):
             if os.path.isabs(p) or p.startswith(".."): v.append(Violation("C15", "changeset-path-not-relative", p, w)); continue
             if p not in run["tree"] and p not in (run["before_tree"] or {}): v.append(Violation("C15", "changeset-path-missing", p, w)); continue
             if not cs["diff"].strip(): v.append(Violation("C15", "empty-diff", p, w))
+            if "--dry-run" not in job["argv"] and run["before_tree"] is not None and p in run["tree"] and run["tree"].get(p) == run["before_tree"].get(p) and not p.endswith((".toml", ".cfg", ".txt")) and len(rep["results"]) == 1:
+                v.append(Violation("C15", "changeset-for-unchanged-file", f"{p} has a changeset but its bytes did not change in this (non-dry) run", w))
             mx = max(nlines(run["tree"].get(p)), nlines((run["before_tree"] or {}).get(p)))
             if not any(c.get("description") for c in cs["changes"]): v.append(Violation("C15", "no-described-change", p, w))
             for c in cs["changes"]:
